@@ -31,6 +31,7 @@ theorem step_base_of_not_stack (b : Store) (c : Layer) (ds : DState) (op : Op)
                all_goals exact ⟨_, _, rfl⟩
   | undo x u => simp only [step]; repeat' split
                 all_goals exact ⟨_, _, rfl⟩
+  | checkCurrent x o ser => exact ⟨_, _, rfl⟩
   | pack P => simp only [step]; repeat' split
               all_goals exact ⟨_, _, rfl⟩
   | newOid draws => simp only [step]; repeat' split
